@@ -534,14 +534,19 @@ class WFSA:
         byte_wfsa = self.spawn(keep_init=True, keep_stop=True)
 
         state_counter = 0
+        arc = None
 
         def get_new_state():
+            # Name the intermediate states after the arc they expand, so that
+            # they stay distinct when several converted automata (with distinct
+            # state names) are later merged into one machine or grammar.
             nonlocal state_counter
-            state = f"_bytes{state_counter}"
+            state = ("_bytes", *arc, state_counter)
             state_counter += 1
             return state
 
         for i, a, j, w in self.arcs():
+            arc = (i, a, j)
             if a == EPSILON:
                 byte_wfsa.add_arc(i, a, j, w)
             elif isinstance(a, str):
